@@ -18,7 +18,7 @@ EXTENDS Naturals, Sequences, FiniteSets, TLC
 CONSTANTS StickyDecoder, DoubleSignal
 
 BadClasses == {"garbage", "nonjson", "wrongkind", "unknownid", "idtype", "giant", "blank", "comment",
-               "noresult", "both", "badutf8", "control-repeat", "truncated", "fieldtype", "noevent"}
+               "noresult", "both", "badutf8", "control-repeat", "truncated", "fieldtype", "noevent", "otherevent", "streamend"}
 Positions == {"before", "instead", "after"}
 
 VARIABLES bad, pos,        \* the scenario
